@@ -99,7 +99,7 @@ pub fn specs(quick: bool) -> Vec<Spec> {
     let mut v = vec![];
     let ns = |min: usize| -> Vec<usize> {
         if quick {
-            vec![min, min + 1, 8]
+            vec![min, min + 1, 7, 9, 12, 16]
         } else {
             let mut l: Vec<usize> = (min..=10).collect();
             l.extend([16, 20, 48]);
